@@ -247,7 +247,8 @@ PROPS["C18"] = {
             "holding those, funcs); values come from boundary-biased value codes; y is independent, a deep copy of x (distinct storage), the very "
             "same value, or a deep copy with one leaf changed minimally (integer +-1, adjacent float, one character); nil patterns are given typed and untyped. Oracle: Go ==/DeepEqual/pointee/identity as the statement lists them, symmetry, "
             "Any, In == union of Equals, stable on re-evaluation - also when the same expression object is next evaluated on a prefix/extension of the same slice or on "
-            "the same pointer/slice/map after its referent was changed in place (answers must equal those of a freshly built expression) - and no panic. NaN, mixed signed zeros and interfaces of different dynamic types are "
+            "the same pointer/slice/map after its referent was changed in place (answers must equal those of a freshly built expression) - and no panic. The membership question is also asked the way users ask it, "
+            "mocker.NewWhen(func(T) int).In(candidates...).Eval(y), incl. the candidate lists (nil, empty) / (empty, nil) of slice and map types and (candidates..., y). NaN, mixed signed zeros and interfaces of different dynamic types are "
             "generated and counted but not judged against Go equality. Non-trivial: a judged pair not built from two zero values; distinct by "
             "(type, x code, y code, relation, nil form).",
     "assumptions": ["arguments are presented to Eval as reflect.Values of the declared parameter type, as goom's own matcher does"],
@@ -387,9 +388,9 @@ PROPS["C04"] = {
         {"name": "configurations", "pkg": "./zverif/stubs", "run": "^TestVerifC04$", "timeout": {"quick": 300, "thorough": 2400},
          "shards": {"quick": 1, "thorough": 16}},
     ],
-    "rule": "rapid draws a target (5 plain functions, 4 variadic functions with 0..3 leading fixed parameters, 3 methods with pointer/value receivers incl. a "
+    "rule": "rapid draws a target (7 plain functions incl. []string / map[string]int / []int parameters, 4 variadic functions with 0..3 leading fixed parameters, 3 methods with pointer/value receivers incl. a "
             "variadic one, 2 methods of an interface variable incl. a variadic one), a well-formed stub configuration (optional default, then 0..5 clauses: When with per-argument plain value / Any / arg.In, or "
-            "In with 1..3 alternative tuples, for variadics also of different lengths) over small overlapping value pools, and 1..20 hit-biased calls. "
+            "In with 1..3 alternative tuples, for variadics also of different lengths, half of the later tuples derived from their predecessor by changing one position) over small overlapping value pools (incl. values that print alike and differ: nil / empty, [\"a b\"] / [\"a\" \"b\"]), and 1..20 hit-biased calls. "
             "Oracle: a reference interpreter (first registered clause all of whose expressions match, counts must agree for variadic tails, else "
             "default, else panic with the 'no suitable condition' message); for plain functions When.Eval must agree with the call. Non-trivial: a "
             "call decided by a clause other than the first, by the default while clauses exist, or by the no-condition panic; distinct by "
@@ -511,12 +512,12 @@ PROPS["C14"] = {
             "PtrTrampoline/Guard.Apply/Unpatch and raw memory.WriteTo with generated offsets/lengths across page boundaries (1..9000 bytes, and whole pages +-3 bytes at any offset); real: every function of "
             "ballast packages (go/types, net/http, math/big, text/template, ...) of the test binary is patched and unpatched with the whole text diffed "
             "at each step. Oracle: accepted => exactly the 13 entry bytes differ and hold the jump, neighbours/padding/other pages untouched, too-short "
-            "functions refused, unpatch restores byte-for-byte, /proc/self/maps shows r-xp. A third unit offers origin placeholders of need-4..need+3 bytes directly followed by a neighbour function: the trampoline write must stay "
+            "functions refused (and refused again when asked a second and third time), unpatch restores byte-for-byte, /proc/self/maps shows r-xp. A third unit offers origin placeholders of need-4..need+3 bytes directly followed by a neighbour function: the trampoline write must stay "
             "inside the placeholder's own body or be refused. The first two units run under strace: every mprotect on the image or "
             "the synthetic arena keeps PROT_EXEC and the last protection of each page is R+X. Non-trivial: entry within 13 bytes of a page end, extent "
             "within +-3 of 13, or a write crossing a page; every patched real function; distinct by layout / function name / page.",
     "assumptions": ["a tiny body glued to its neighbour without padding is not generated (no Go binary contains one)", "ballast functions are never executed by the harness or goom"],
-    "floors": [("synthetic", "accepted/entry-within-13-bytes-of-page-end", 200), ("synthetic", "refused/too-short", 100), ("synthetic", "write-crossing-a-page-boundary", 300), ("synthetic", "write-of-whole-pages-at-an-unaligned-address", 40),
+    "floors": [("synthetic", "accepted/entry-within-13-bytes-of-page-end", 200), ("synthetic", "refused/too-short", 100), ("synthetic", "write-crossing-a-page-boundary", 300), ("synthetic", "write-of-whole-pages-at-an-unaligned-address", 40), ("synthetic", "refused/asked-again", 300),
                ("real-binary", "patched-and-restored", 1000), ("strace-synthetic", "mprotect-on-synthetic-arena", 1000), ("strace-real", "mprotect-on-text", 1000),
                ("tight-placeholders", "accepted", 1000), ("tight-placeholders", "refused-too-small", 1000)],
 }
